@@ -138,8 +138,8 @@ pub struct UpperReversalSignal {
 	right: PeriodType,
 
 	max_value: ValueType,
-	max_index: PeriodType,
-	index: PeriodType,
+	max_index: usize,
+	index: usize,
 	window: Window<ValueType>,
 }
 
@@ -180,7 +180,7 @@ impl Method for UpperReversalSignal {
 		let first_index = self
 			.index
 			.saturating_add(1)
-			.saturating_sub(self.window.len());
+			.saturating_sub(self.window.len() as usize);
 
 		if self.max_index < first_index {
 			let mut max_index = first_index;
@@ -203,8 +203,8 @@ impl Method for UpperReversalSignal {
 			self.max_index = self.index;
 		}
 
-		let s = if self.index >= self.right
-			&& self.max_index == self.index.saturating_sub(self.right)
+		let s = if self.index >= self.right as usize
+			&& self.max_index == self.index.saturating_sub(self.right as usize)
 		{
 			Action::BUY_ALL
 		} else {
@@ -272,8 +272,8 @@ pub struct LowerReversalSignal {
 	// before:	usize,
 	// after:	usize,
 	min_value: ValueType,
-	min_index: PeriodType,
-	index: PeriodType,
+	min_index: usize,
+	index: usize,
 	window: Window<ValueType>,
 }
 
@@ -314,7 +314,7 @@ impl Method for LowerReversalSignal {
 		let first_index = self
 			.index
 			.saturating_add(1)
-			.saturating_sub(self.window.len());
+			.saturating_sub(self.window.len() as usize);
 
 		if self.min_index < first_index {
 			let mut min_index = first_index;
@@ -337,8 +337,8 @@ impl Method for LowerReversalSignal {
 			self.min_index = self.index;
 		}
 
-		let s = if self.index >= self.right
-			&& self.min_index == self.index.saturating_sub(self.right)
+		let s = if self.index >= self.right as usize
+			&& self.min_index == self.index.saturating_sub(self.right as usize)
 		{
 			Action::BUY_ALL
 		} else {
